@@ -25,6 +25,9 @@ type HarnessSpec struct {
 	Bounds   map[string]int64 `json:"bounds"`
 	MaxPaths int              `json:"max_paths"`
 	MapOrder bool             `json:"map_order"`
+	TimeSec  int              `json:"time_s"`
+	MaxViol  int              `json:"max_violations"`
+	NoMerge  bool             `json:"no_merge"`
 	Concrete map[string]string `json:"concrete,omitempty"`
 }
 
@@ -50,6 +53,8 @@ type HarnessResult struct {
 	SolverErrors []string            `json:"solver_errors,omitempty"`
 	Error        string              `json:"error,omitempty"`
 	Inputs       []string            `json:"inputs,omitempty"`
+	Merges       int                 `json:"merges"`
+	SpecAborts   map[string]int      `json:"spec_aborts,omitempty"`
 }
 
 func main() {
@@ -181,9 +186,17 @@ func runHarness(prog *ssa.Program, byPath map[string]*ssa.Package, pkgs []*packa
 	if spec.MaxPaths > 0 {
 		ex.MaxPaths = spec.MaxPaths
 	}
+	ex.Progress = func(s string) { fmt.Fprintf(os.Stderr, "  [%s] %s\n", spec.Func, s) }
 	in := sym.NewInterp(prog, ex)
 	in.Trace = trace
+	if spec.MaxViol > 0 {
+		ex.MaxViolations = spec.MaxViol
+	}
 	in.MapOrderNondet = spec.MapOrder
+	in.NoMerge = spec.NoMerge
+	if spec.TimeSec > 0 {
+		ex.Deadline = time.Now().Add(time.Duration(spec.TimeSec) * time.Second)
+	}
 	for k, v := range spec.Bounds {
 		in.Bounds[k] = v
 	}
@@ -217,6 +230,8 @@ func runHarness(prog *ssa.Program, byPath map[string]*ssa.Package, pkgs []*packa
 	res.Samples = ex.Samples
 	res.SolverErrors = solver.Errors
 	res.Inputs = ex.InputOrd
+	res.Merges = in.Merges
+	res.SpecAborts = in.SpecAborts
 	for f := range in.Entered {
 		res.Functions = append(res.Functions, f)
 	}
